@@ -277,7 +277,8 @@ impl TransformerContext {
         let flattened = compound_indexes
             .iter()
             .map(|value| match value {
-                Primitive::Number(value) => Ok(value.to_string()),
+                // (-0.0 names the same variable as 0)
+                Primitive::Number(value) => Ok((value + 0.0).to_string()),
                 Primitive::Integer(value) => Ok(value.to_string()),
                 Primitive::PositiveInteger(value) => Ok(value.to_string()),
                 Primitive::Boolean(value) => Ok(if *value { "T" } else { "F" }.to_string()),
